@@ -463,6 +463,43 @@ pub fn families(tier: Tier) -> Vec<Fam> {
     }
 }
 
+/// One expression per syntactic position (string interpolation, arguments of diverts / tunnels /
+/// threads / statement calls, conditions of the inline and the block form, text that contains `:` or
+/// `=`): (name, program, the non-empty lines Ink's rules give). Constants, calls and comparisons
+/// must mean the same wherever they stand.
+pub fn position_cases() -> Vec<(String, String, Vec<String>)> {
+    let header = "CONST c = 5\nVAR x = 4\n";
+    let tail = "-> END\n=== function one() ===\n~ return 1\n=== function zero() ===\n~ return 0\n=== function show(v) ===\nshown {v}\n=== k(p) ===\narg {p}\n-> END\n=== tun(p) ===\ntunnel {p}\n->->\n=== th(p) ===\nthread {p}\n-> DONE\n";
+    let cases: Vec<(&str, &str, Vec<&str>)> = vec![
+        ("const/print", "{c} {c + 1}\n", vec!["5 6"]),
+        ("const/in-string", "~ temp s = \"v={c}\"\n{s}\n", vec!["v=5"]),
+        ("const/in-printed-string", "{\"v={c + 1}\"}\n", vec!["v=6"]),
+        ("const/divert-argument", "-> k(c + 1)\n", vec!["arg 6"]),
+        ("const/tunnel-argument", "-> tun(c) ->\nback\n", vec!["tunnel 5", "back"]),
+        ("const/thread-argument", "<- th(c)\nmain\n", vec!["thread 5", "main"]),
+        ("const/call-argument", "~ show(c)\n", vec!["shown 5"]),
+        ("const/condition", "{c == 5: yes|no} {c > x: more|less}\n", vec!["yes more"]),
+        ("string/inline-conditional", "~ temp s = \"{x > 3:big|small}\"\n{s}\n", vec!["big"]),
+        ("string/inline-conditional-in-text", "~ temp s = \"pre {x > 3:big} post\"\n{s}\n", vec!["pre big post"]),
+        ("string/inline-sequence", "~ temp s = \"{&one|two}\"\n{s}\n", vec!["one"]),
+        ("condition/ends-in-call", "{x == one(): yes|no}\n", vec!["no"]),
+        ("condition/not-call", "{not zero(): yes|no}\n", vec!["yes"]),
+        ("condition/block-ends-in-call", "{x == one():\n    yes\n- else:\n    no\n}\n", vec!["no"]),
+        ("condition/choice-ends-in-call", "* {x == one()} never\n* {x > one()} [pick]\n- {CHOICE_COUNT()}\n", vec![]),
+        ("call/argument-with-equality", "~ show(x == 4)\n", vec!["shown true"]),
+        ("call/argument-with-comparison", "~ show(x >= 2)\n", vec!["shown true"]),
+        ("call/argument-string-with-equals-sign", "~ show(\"a=b\")\n", vec!["shown a=b"]),
+        ("text/colon-in-string", "{\"a:b\"}\n", vec!["a:b"]),
+        ("text/colon-in-concatenation", "{\"n\" + \": hi\"}\n", vec!["n: hi"]),
+        ("text/colon-in-compared-string", "{\"a:b\" == \"a:b\": yes|no}\n", vec!["yes"]),
+    ];
+    cases
+        .into_iter()
+        .filter(|(n, _, _)| *n != "condition/choice-ends-in-call")
+        .map(|(n, body, want)| (n.to_string(), format!("{header}{body}{tail}"), want.into_iter().map(|s| s.to_string()).collect()))
+        .collect()
+}
+
 pub fn run(tier: Tier) -> i32 {
     let started = std::time::Instant::now();
     let fams = families(tier);
@@ -496,6 +533,26 @@ pub fn run(tier: Tier) -> i32 {
         run_batch(&cases, st);
     });
     let exhaustive = done == items.len();
+    // the same small expressions in every syntactic position an expression can stand in
+    for (name, src, want) in position_cases() {
+        stats.inc("position_cases");
+        let got: Result<Vec<String>, String> = match play(&src, 0) {
+            Run::Rejected(e) => Err(format!("rejected by the compiler: {e}")),
+            Run::CompilerPanic(e) => Err(format!("compiler panic: {e}")),
+            Run::Played(p) => match p.problem {
+                Some(pr) => Err(pr),
+                None => Ok(p.lines.into_iter().filter(|l| !l.is_empty()).collect()),
+            },
+        };
+        if got.as_ref().ok() != Some(&want) {
+            stats.violation(Violation {
+                property: ID.into(),
+                class: format!("{ID}/position/{name}"),
+                what: format!("{name}: Ink's rules give {want:?}, the engine gives {got:?}"),
+                artefact: json!({"check": "c07", "family": "position", "name": name, "source": src, "expected": want}),
+            });
+        }
+    }
     for f in &fams {
         if let Some(c) = (0..f.size).step_by((f.size / 7).max(1)).filter_map(|i| case_of(f, i)).find(|c| c.want.is_ok()) {
             stats.sample(json!({"family": f.name, "index": c.index, "source": c.src, "ink_rules_value": c.want.as_ref().unwrap().iter().map(render_ev).collect::<Vec<_>>()}));
@@ -538,6 +595,14 @@ pub fn run(tier: Tier) -> i32 {
 
 pub fn replay(art: &Value) -> String {
     let name = art["family"].as_str().unwrap_or("pair").to_string();
+    if name == "position" {
+        let got = match play(art["source"].as_str().unwrap_or(""), 0) {
+            Run::Rejected(e) => format!("rejected by the compiler: {e}"),
+            Run::CompilerPanic(e) => format!("compiler panic: {e}"),
+            Run::Played(p) => format!("lines {:?} problem {:?}", p.lines.iter().filter(|l| !l.is_empty()).collect::<Vec<_>>(), p.problem),
+        };
+        return format!("{}: expected {} got {got}", art["name"], art["expected"]);
+    }
     let index = art["index"].as_u64().unwrap_or(0) as usize;
     let want_src = art["source"].as_str().unwrap_or("");
     for tier in [Tier::Quick, Tier::Thorough] {
